@@ -12,6 +12,7 @@ pub const CONST: u64 = 256;
 
 /// Steps the validator spends on `bytes` (None = panic).
 pub fn steps_of(bytes: &[u8]) -> Result<(u64, bool), String> {
+    crate::history::fire_if_armed(bytes);
     let v = bytes.to_vec();
     verif_hooks::reset();
     verif_hooks::set_limit(u64::MAX);
@@ -340,6 +341,11 @@ pub fn bound_check_pub(bytes: &[u8]) -> PResult {
 
 fn c18_case(data: &[u8], st: &mut Stats) -> PResult {
     let mut src = Src::new(data);
+    crate::history::case(&mut src, st, 6, c18_body)
+}
+
+fn c18_body(src: &mut Src, st: &mut Stats) -> PResult {
+    let mut src = src.fork();
     match src.weighted(&[5, 3]) {
         0 => {
             let (bytes, origin) = gen_input(&mut src);
